@@ -218,16 +218,40 @@ class Facts:
         a = _ANCHORS.get(key)
         if not a:
             return None
-        cands = []
+
+        def short(ty):
+            import re
+            return re.sub(r"[A-Za-z_0-9]+::", "", ty or "")
+
+        def trait_name(t):
+            return (t or "").split("<")[0].split("::")[-1]
+        want_sig = ([short(p) for p in a["params"]], short(a["ret"]))
+        strict, loose = [], []
         for k, g in self.fns.items():
-            if g["crate"] != a["crate"] or "{" in k or k in _ANCHORS and k != key:
+            if g["crate"] != a["crate"] or "{" in k or (k in _ANCHORS and k != key):
                 continue
-            if (g.get("impl_trait") or "") != a.get("impl_trait", ""):
+            # a trait impl stays an impl of the (possibly moved) trait of that name for the same type
+            if trait_name(g.get("impl_trait")) != trait_name(a.get("impl_trait")):
                 continue
-            if fn_signature(g) == (a["params"], a["ret"]) and (g.get("impl_self_adt") or "") == a.get("owner", ""):
-                cands.append(g)
-        uniq = {g["key"]: g for g in cands}
-        return next(iter(uniq.values())) if len(uniq) == 1 else None
+            ps, rt = fn_signature(g)
+            if ([short(p) for p in ps], short(rt)) != want_sig:
+                continue
+            if a.get("impl_trait"):
+                if (g.get("impl_self_adt") or "") == a.get("owner", "") and g["key"].split("::")[-1] == key.split("::")[-1] and \
+                        g["key"].split(" as ")[0] == key.split(" as ")[0]:
+                    strict.append(g)
+                continue
+            if (g.get("impl_self_adt") or "") == a.get("owner", ""):
+                strict.append(g)
+            else:
+                loose.append(g)     # a free function that became an associated function, or the reverse
+        for cands in (strict, loose):
+            uniq = {g["key"]: g for g in cands}
+            if len(uniq) == 1:
+                return next(iter(uniq.values()))
+            if len(uniq) > 1:
+                return None
+        return None
 
     def deps_closure(self, crate):
         seen = set()
